@@ -2652,6 +2652,10 @@ class sptensor:
                 self.vals[loc] = value
                 # pare down list of subscripts to add
                 addsubs = addsubs[tt_setdiff_rows(addsubs, self.subs)]
+            elif addsubs.size > 0:
+                # An index list may name the same element more than once
+                _, first = np.unique(addsubs, axis=0, return_index=True)
+                addsubs = addsubs[np.sort(first)]
 
             # If there are things to insert then insert them
             if addsubs.size > 0:
